@@ -150,7 +150,7 @@ static void expand_state(const Cfg &cfg, const Hist &h, const std::string &expec
     }
 }
 
-struct UnitStats { long states = 0, transitions = 0, execs = 0, evals = 0, nexp = 0, failed_ops = 0, skipped = 0; int nviol = 0; bool complete = true; int maxdepth = 0; std::map<std::string,long> optally; };
+struct UnitStats { long states = 0, transitions = 0, execs = 0, evals = 0, nexp = 0, failed_ops = 0, skipped = 0; int nviol = 0; bool complete = true; int maxdepth = 0; std::map<std::string,long> optally; std::string sample; };
 
 static void explore_unit(const Cfg &cfg, const std::string &unit, UnitStats &S){
     std::vector<Op> alphabet = alphabet_for(g_prop, cfg, g_tier);
@@ -169,7 +169,7 @@ static void explore_unit(const Cfg &cfg, const std::string &unit, UnitStats &S){
             std::istringstream ls(line); std::string t; ls >> t;
             if (t == "I"){ std::string k; long ev, nx; int nv; ls >> k >> ev >> nx >> nv; seen.insert(k); S.states++; S.evals += ev; S.nexp += nx; S.nviol += nv; }
             else if (t == "T"){ std::string ops_, k; long ev, nx; int nv; ls >> ops_ >> k >> ev >> nx >> nv; S.transitions++; S.execs++; S.evals += ev; S.nexp += nx; S.nviol += nv; S.optally[Op::parse(ops_).k]++;
-                if (seen.insert(k).second){ S.states++; Hist hn = h; hn.push_back(Op::parse(ops_)); S.maxdepth = std::max(S.maxdepth, (int) hn.size()); frontier.push_back(std::make_pair(hn, k.substr(0, 32))); } }
+                if (seen.insert(k).second){ S.states++; Hist hn = h; hn.push_back(Op::parse(ops_)); S.maxdepth = std::max(S.maxdepth, (int) hn.size()); if ((int) hn.size() >= S.maxdepth) S.sample = hstr(hn); frontier.push_back(std::make_pair(hn, k.substr(0, 32))); } }
             else if (t == "F"){ std::string ops_; int nv; ls >> ops_ >> nv; S.transitions++; S.execs++; S.failed_ops++; S.nviol += nv; }
             else if (t == "S"){ S.skipped++; }
             else if (t == "D"){ S.complete = false; }
@@ -189,7 +189,7 @@ static void explore_unit(const Cfg &cfg, const std::string &unit, UnitStats &S){
 int main(int argc, char **argv){
     vf::Args A(argc, argv);
     g_prop = A.get("--prop", "C01"); g_tier = A.get("--tier", "quick"); g_depth = (int) A.geti("--depth", g_tier == "quick" ? 3 : 4);
-    g_watch = A.getd("--watchdog", g_prop == "C08" ? 3.0 : 10.0);
+    g_watch = A.getd("--watchdog", g_prop == "C08" ? 5.0 : 15.0);
     double dl = A.getd("--deadline", 0); if (dl > 0) vf::g_deadline = vf::now() + dl;
     if (A.has("--replay")){
         std::string v = vf::slurp(A.get("--replay")); std::string cs = vf::jget(v, "case"); Cfg cfg = Cfg::parse(vf::jget(cs, "cfg")); Hist h = hparse(vf::jget(cs, "hist"));
@@ -209,6 +209,7 @@ int main(int argc, char **argv){
         std::string tally; for(auto &p : S.optally) tally += p.first + "=" + std::to_string(p.second) + " ";
         vf::emit(vf::J().s("t","unit").s("unit", unit).i("states", S.states).i("transitions", S.transitions).i("execs", S.execs + S.nexp).i("evals", S.evals).i("distinct", S.states).i("experiments", S.nexp)
                  .i("failed_ops", S.failed_ops).i("skipped", S.skipped).i("violations", S.nviol).i("maxdepth", S.maxdepth).s("ops", tally).n("wall", vf::now() - t0).b("complete", S.complete));
+        if (ui % 7 == 0 && !S.sample.empty()) vf::emit(vf::J().s("t","sample").raw("case", vf::J().s("cfg", unit).s("history", S.sample).str()));
     });
     vf::emit(vf::J().s("t","sample").raw("case", vf::J().s("cfg", L[0].str()).s("alphabet", [&]{ std::string s; for(auto &o : alphabet_for(g_prop, L[0], g_tier)) s += o.str() + " "; return s; }()).str()));
     if (L.size() > 1) vf::emit(vf::J().s("t","sample").raw("case", vf::J().s("cfg", L[L.size()/2].str()).s("alphabet", [&]{ std::string s; for(auto &o : alphabet_for(g_prop, L[L.size()/2], g_tier)) s += o.str() + " "; return s; }()).str()));
